@@ -545,3 +545,116 @@ _SEP = [{'file': _URI, 'old': "    query_string: str, keep_blank: bool = False, 
          'new': "    query_string: str, keep_blank: bool = False, csv: bool = False, *, separator: str = %r\n"},
         {'file': _URI, 'old': "    for field in query_string.split('&'):\n", 'new': "    for field in query_string.split(separator):\n"}]
 M2('c08-separator-default-semicolon', 'C08', 'R1', [dict(e, new=(e['new'] % ';') if '%r' in e['new'] else e['new']) for e in _SEP])
+
+# ---------------------------------------------------------------- third preserving wave (k3-*): refactoring + break
+# k3-c08-2 shape: fields collected in a list, early `return ''` on the empty list, prefix + '&'.join(fields); the mistake sits in a field / the join
+_K3_QS = [
+    {'file': _MISC, 'old': "    query_str = '?' if prefix else ''\n", 'new': "    fields = []\n"},
+    {'file': _MISC, 'old': "                    query_str += encode_value(k) + '=' + list_value + '&'\n",
+     'new': "                    fields.append(encode_value(k) + '=' + list_value)\n"},
+    {'file': _MISC, 'old': "    return query_str[:-1]\n", 'new': "    if not fields:\n        return ''\n\n    return ('?' if prefix else '') + %s.join(fields)\n"}]
+
+
+def _k3qs(last_field, sep="'&'"):
+    return [dict(e, new=(e['new'] % sep) if '%s' in e['new'] else e['new']) for e in _K3_QS] + [
+        {'file': _MISC, 'old': "        query_str += encode_value(k) + '=' + v + '&'\n", 'new': last_field}]
+
+
+M2('c08-qs-fields-raw-key', 'C08', 'R4', _k3qs("        fields.append(k + '=' + v)\n"))
+M2('c08-qs-fields-joined-with-semicolon', 'C08', 'R4', _k3qs("        fields.append(encode_value(k) + '=' + v)\n", sep="';'"))
+M2('c08-qs-fields-joined-with-nothing', 'C08', 'R4', _k3qs("        fields.append(encode_value(k) + '=' + v)\n", sep="''"))
+M2('c08-qs-fields-raw-value', 'C08', 'R4', _k3qs("        fields.append(encode_value(k) + '=' + v)\n") + [
+    {'file': _MISC, 'old': "        else:\n            v = encode_value(str(v))\n", 'new': "        else:\n            v = str(v)\n"}])
+
+# k3-c08-3 shape: the min / max range check of get_param_as_int / get_param_as_float in a module-level helper called as a statement;
+# the mistake sits in the helper / in the arguments of one call
+_BOUNDS_OLD = ("            if min_value is not None and val < min_value:\n                msg = 'The value must be at least ' + str(min_value)\n"
+               "                raise errors.HTTPInvalidParam(msg, name)\n\n"
+               "            if max_value is not None and max_value < val:\n                msg = 'The value may not exceed ' + str(max_value)\n"
+               "                raise errors.HTTPInvalidParam(msg, name)\n")
+_BOUNDS_HELPER = ("def _check_param_bounds(name, val, min_value, max_value):\n"
+                  "    if min_value is not None and val %s min_value:\n        msg = 'The value must be at least ' + str(min_value)\n"
+                  "        raise errors.HTTPInvalidParam(msg, name)\n\n"
+                  "    if max_value is not None and max_value %s val:\n        msg = 'The value may not exceed ' + str(max_value)\n"
+                  "        raise errors.HTTPInvalidParam(msg, name)\n\n\n# PERF: To avoid typos and improve storage space and speed over a dict.\nclass RequestOptions:\n")
+_BOUNDS_ANCHOR = "# PERF: To avoid typos and improve storage space and speed over a dict.\nclass RequestOptions:\n"
+
+
+def _bounds(lo, hi, call="            _check_param_bounds(name, val, min_value, max_value)\n"):
+    return [{'file': _REQ, 'old': _BOUNDS_OLD, 'new': call, 'count': 2},
+            {'file': _REQ, 'old': _BOUNDS_ANCHOR, 'new': _BOUNDS_HELPER % (lo, hi)}]
+
+
+M2('c08-bounds-helper-min-inclusive', 'C08', 'R3', _bounds('<=', '<'))
+M2('c08-bounds-helper-max-inclusive', 'C08', 'R3', _bounds('<', '<='))
+M2('c08-bounds-helper-max-reversed', 'C08', 'R3', _bounds('<', '>'))
+# the call hands the two bounds over crossed: min_value acts as the upper bound
+M2('c08-bounds-helper-args-crossed', 'C08', 'R3', _bounds('<', '<', "            _check_param_bounds(name, val, max_value, min_value)\n"))
+
+# ---- pre-emptive hardening (shapes read since the third wave): refactoring + break
+# R4: a local alias of the encoder (`enc = encode_value`) -- bound to something that is not the value encoder
+_ENC_ALIAS = [
+    {'file': _MISC, 'old': "        query_str += encode_value(k) + '=' + v + '&'\n", 'new': "        query_str += enc(k) + '=' + v + '&'\n"},
+    {'file': _MISC, 'old': "            v = encode_value(str(v))\n", 'new': "            v = enc(str(v))\n"}]
+M2('c08-qs-encoder-alias-is-str', 'C08', 'R4', _ENC_ALIAS + [
+    {'file': _MISC, 'old': "    query_str = '?' if prefix else ''\n", 'new': "    query_str = '?' if prefix else ''\n    enc = str\n"}])
+# ... re-bound on a path (the alias is not a single binding any more: what it denotes is not read -> the values count as raw)
+M2('c08-qs-encoder-alias-rebound', 'C08', 'R4', _ENC_ALIAS + [
+    {'file': _MISC, 'old': "    query_str = '?' if prefix else ''\n",
+     'new': "    query_str = '?' if prefix else ''\n    enc = encode_value\n    if not comma_delimited_lists:\n        enc = str\n"}])
+# R4: the scalar rendering in a module-level helper whose last return forgets the encoder
+_RENDER = ("def _render_scalar(value):\n    if value is True:\n        return 'true'\n    if value is False:\n        return 'false'\n    return %s\n\n\ndef to_query_str(\n")
+_RENDER_CALL = {'file': _MISC,
+                'old': "                    if list_value is True:\n                        list_value = 'true'\n                    elif list_value is False:\n"
+                       "                        list_value = 'false'\n                    else:\n                        list_value = encode_value(str(list_value))\n",
+                'new': "                    list_value = _render_scalar(list_value)\n"}
+M2('c08-qs-render-helper-returns-raw', 'C08', 'R4', [{'file': _MISC, 'old': "def to_query_str(\n", 'new': _RENDER % 'str(value)'}, _RENDER_CALL])
+# ... or falls off its end for ordinary values (None + '=' ...)
+M2('c08-qs-render-helper-falls-off', 'C08', 'R4', [
+    {'file': _MISC, 'old': "def to_query_str(\n",
+     'new': "def _render_scalar(value):\n    if value is True:\n        return 'true'\n    if value is False:\n        return 'false'\n    encode_value(str(value))\n\n\ndef to_query_str(\n"},
+    _RENDER_CALL])
+# R4: the pair written as an f-string, the key field without the encoder
+M('c08-qs-fstring-raw-key', 'C08', 'R4', _MISC, "        query_str += encode_value(k) + '=' + v + '&'\n", "        query_str += f'{k}={v}&'\n")
+M('c08-qs-fstring-semicolon', 'C08', 'R4', _MISC, "        query_str += encode_value(k) + '=' + v + '&'\n", "        query_str += f'{encode_value(k)}={v};'\n")
+# R15: decode-under-the-flag in a module-level helper / a conditional expression, the flag the wrong way round
+_MAYBE = "def _maybe_decode(text, is_encoded):\n    if %s:\n        return decode(text)\n\n    return text\n\n\ndef parse_query_string(\n"
+# (the value only: a re-binding of the NAME through a helper that does not decode it is exit 2 by design -- what k holds then is not read)
+_MAYBE_CALLS = [
+    {'file': _URI, 'old': "            elif is_encoded:\n                params[k] = decode(v)\n            else:\n                params[k] = v\n",
+     'new': "            else:\n                params[k] = _maybe_decode(v, %s)\n"}]
+M2('c08-maybe-decode-helper-flag-negated-inside', 'C08', 'R15',
+   [{'file': _URI, 'old': "def parse_query_string(\n", 'new': _MAYBE % 'not is_encoded'}] + [dict(e, new=e['new'] % 'is_encoded') for e in _MAYBE_CALLS])
+M2('c08-maybe-decode-helper-flag-negated-at-call', 'C08', 'R15',
+   [{'file': _URI, 'old': "def parse_query_string(\n", 'new': _MAYBE % 'is_encoded'}] + [dict(e, new=e['new'] % 'not is_encoded') for e in _MAYBE_CALLS])
+# the helper is handed a flag that only knows about '%'
+M2('c08-maybe-decode-helper-flag-forgets-plus', 'C08', 'R15',
+   [{'file': _URI, 'old': "def parse_query_string(\n", 'new': _MAYBE % 'is_encoded'}] + [dict(e, new=e['new'] % "'%' in query_string") for e in _MAYBE_CALLS])
+M('c08-maybe-decode-ifexp-arms-swapped', 'C08', 'R15', _URI,
+  "            elif is_encoded:\n                params[k] = decode(v)\n            else:\n                params[k] = v\n",
+  "            else:\n                params[k] = v if is_encoded else decode(v)\n")
+# R1: the field list bound to a local in front of the loop, split at the wrong character
+M('c08-fields-local-split-semicolon', 'C08', 'R1', _URI, "    for field in query_string.split('&'):\n",
+  "    fields = query_string.split(';')\n    for field in fields:\n")
+# R3: the presence test of a getter written EAFP (try: params[name] / except KeyError); the mistake sits in the absent arm
+_GP_TAIL = ("        if name in params:\n            # NOTE(warsaw): If the key appeared multiple times, it will be\n            # stored internally as a list.  We do not define which one\n"
+            "            # actually gets returned, but let's pick the last one for grins.\n            param = params[name]\n            if isinstance(param, list):\n                param = param[-1]\n\n"
+            "            if store is not None:\n                store[name] = param\n\n            return param\n\n        if not required:\n            return default\n\n        raise errors.HTTPMissingParam(name)\n")
+_GP_EAFP = ("        try:\n            param = params[name]\n        except KeyError:\n%s\n"
+            "        if isinstance(param, list):\n            param = param[%s]\n\n        if store is not None:\n            store[name] = param\n\n        return param\n")
+M('c08-eafp-getter-required-ignored', 'C08', 'R3', _REQ, _GP_TAIL, _GP_EAFP % ("            return default\n", '-1'))
+M('c08-eafp-getter-required-inverted', 'C08', 'R3', _REQ, _GP_TAIL,
+  _GP_EAFP % ("            if required:\n                return default\n\n            raise errors.HTTPMissingParam(name)\n", '-1'))
+M('c08-eafp-getter-first-occurrence', 'C08', 'R3', _REQ, _GP_TAIL,
+  _GP_EAFP % ("            if not required:\n                return default\n\n            raise errors.HTTPMissingParam(name)\n", '0'))
+# negative controls (exit 0, checked by hand with --root): each refactoring above without the mistake; see the fixer report
+# R1: the field separator hoisted into a module-level constant with the wrong character
+M2('c08-field-separator-constant-semicolon', 'C08', 'R1', [
+    {'file': _URI, 'old': "def parse_query_string(\n", 'new': "_FIELD_SEP = ';'\n\n\ndef parse_query_string(\n"},
+    {'file': _URI, 'old': "    for field in query_string.split('&'):\n", 'new': "    for field in query_string.split(_FIELD_SEP):\n"}])
+# R3: the store hook as a guard clause (`if store is None: return v` / store / return); the test the wrong way round, or the write dropped on the way
+_STORE_OLD = "            if store is not None:\n                store[name] = param\n\n            return param\n"
+M('c08-store-guard-clause-inverted', 'C08', 'R3', _REQ, _STORE_OLD,
+  "            if store is not None:\n                return param\n\n            store[name] = param\n            return param\n")
+M('c08-store-guard-clause-early-return', 'C08', 'R3', _REQ, _STORE_OLD,
+  "            if isinstance(param, str):\n                return param\n\n            if store is None:\n                return param\n\n            store[name] = param\n            return param\n")
